@@ -6,6 +6,7 @@ oracle   : one independent decoder per format (harness/decoders.py), each compar
            derivation in the format's own spelling; conll heads recomputed from the head flags
 """
 import json
+from depccg import lang as dlang
 
 from lxml import etree
 
@@ -235,6 +236,26 @@ def run(ctx):
             # ---- model ----------------------------------------------------------------------------------
             if f in ('auto', 'auto_extended', 'conll', 'ptb', 'ja', 'deriv'):
                 cases.append(('tostring', f'tostring {f} {enc_scored}', 'ok ' + enc_str(out) if out is not None else err, desc))
+                if out is not None and f in ('auto', 'auto_extended', 'ptb', 'ja'):
+                    # the whole output through the document reader of the one-line formats (theorems line_doc_decode /
+                    # main_line_reads_back): sentence number, score text and the tree's own line, taken from the real
+                    # per-tree printer
+                    from depccg.printer.auto import auto_of, auto_extended_of
+                    from depccg.printer.ptb import ptb_of
+                    from depccg.printer.ja import ja_of
+                    one = {'auto': auto_of, 'auto_extended': auto_extended_of, 'ptb': ptb_of, 'ja': ja_of}[f]
+                    try:
+                        dlang.set_global_language_to(lang)
+                        lines_ = [one(T.clone(st.tree)) for sent in batch for st in sent]
+                    except Exception:
+                        lines_ = None
+                    finally:
+                        dlang.set_global_language_to('en')
+                    if lines_ is not None and all('\n' not in l for l in lines_):
+                        want_ld = f'ok {len(flat)}' + ''.join(
+                            f' ## {n} {enc_str(f"{st.score:.8f}")} {enc_str(l)}'
+                            for (n, _), st, l in zip(flat, [st for sent in batch for st in sent], lines_))
+                        cases.append(('line_doc', 'line_doc ' + enc_str(out + '\n'), want_ld, desc))
             elif f == 'prolog':
                 cases.append(('prolog', f'prolog_{lang} {enc_batch}', 'ok ' + enc_str(out) if out is not None else err, desc))
             elif f == 'json':
